@@ -90,7 +90,7 @@ func Harness_value() {
 	v := value("v", vrt.Param("depth", 1), vrt.Param("width", 2), vrt.Param("strlen", 2))
 	txt := lisp.PRINT(v)
 	r, err := lisp.READ(txt, nil, nil)
-	vrt.Observe("printed", txt)
+	vrt.Observe("~printed", txt)
 	vrt.Assert(err == nil, "READ rejects the text PRINT produced for a "+lib.Show(v))
 	vrt.Assert(lib.RefEq(r, v), "READ(PRINT(v)) differs from v for a "+lib.Show(v))
 	vrt.Reach("end")
@@ -118,7 +118,7 @@ func Harness_text() {
 	txt := lisp.PRINT(x)
 	y, err2 := lisp.READ(txt, nil, nil)
 	vrt.Observe("src", src)
-	vrt.Observe("printed", txt)
+	vrt.Observe("~printed", txt)
 	class := ""
 	if xs, ok := x.(string); ok && len(xs) >= 2 && xs[0] == 0xCA && xs[1] == 0x9E && (src[0] == '"' || src[0] == 0xC2) {
 		// the whole text is a string literal whose content starts with the keyword marker
@@ -154,7 +154,7 @@ func Harness_jsonish() {
 	}
 	txt := lisp.PRINT(v)
 	r, err := lisp.READ(txt, nil, nil)
-	vrt.Observe("printed", txt)
+	vrt.Observe("~printed", txt)
 	vrt.Assert(err == nil, "READ rejects the text PRINT produced for a JSON-looking string")
 	vrt.Assert(lib.RefEq(r, v), "READ(PRINT(v)) differs from v for a JSON-looking string")
 	vrt.Reach("end")
